@@ -303,17 +303,39 @@ func (packet *Packet) readPacket(connection net.Conn) ([]byte, error) {
 		return data, nil
 	}
 
+	// the payload continues in the next packet: keep the sequence id of the first one, Dump numbers the rest
+	sequenceID := packet.header[SequenceIDIndex]
 	var buf []byte
 	buf, err := packet.readPacket(connection)
 	if err != nil {
 		return nil, err
 	}
+	packet.header[SequenceIDIndex] = sequenceID
 	return append(data, buf...), nil
 }
 
 // Dump returns packet header and data as []byte
 func (packet *Packet) Dump() []byte {
-	return append(packet.header, packet.data...)
+	if len(packet.data) < MaxPayloadLen {
+		return append(packet.header, packet.data...)
+	}
+	// a payload of 2^24-1 bytes or more is sent as a sequence of packets with consecutive sequence ids,
+	// the last one shorter than 2^24-1 bytes (possibly empty)
+	// https://dev.mysql.com/doc/dev/mysql-server/latest/page_protocol_basic_packets.html#sect_protocol_basic_packets_sending_mt_16mb
+	output := make([]byte, 0, len(packet.data)+PacketHeaderSize*(len(packet.data)/MaxPayloadLen+1))
+	sequenceID := packet.header[SequenceIDIndex]
+	for data := packet.data; ; sequenceID++ {
+		length := len(data)
+		if length > MaxPayloadLen {
+			length = MaxPayloadLen
+		}
+		output = append(output, byte(length), byte(length>>8), byte(length>>16), sequenceID)
+		output = append(output, data[:length]...)
+		data = data[length:]
+		if length < MaxPayloadLen {
+			return output
+		}
+	}
 }
 
 // ReadPacket header and payload from connection or return error
